@@ -760,7 +760,7 @@ def _safe(store: dict, w, fn: str, args: dict, budget: float, what: dict):
     return None
 
 
-def _run_cases(ctx: Ctx, store: dict):
+def _run_cases(ctx: Ctx, store: dict, more_cases: bool = False):
     import time as _t
 
     t0 = _t.time()
@@ -770,7 +770,16 @@ def _run_cases(ctx: Ctx, store: dict):
     nhang: dict = {}
     try:
         w.start()
-        for c in gen_cases(ctx):
+        if more_cases and not ctx.thorough:
+            old = ctx.tier
+            ctx.tier = "thorough"
+            try:
+                todo = gen_cases(ctx)
+            finally:
+                ctx.tier = old
+        else:
+            todo = gen_cases(ctx)
+        for c in todo:
             if nhang.get(c["conf"]["gen"], 0) >= 1:
                 store.setdefault("skipped_after_hangs", []).append(c["conf"]["gen"])
                 continue      # a call of this generator already failed to return: the finding is made, keep the run bounded
@@ -1145,14 +1154,10 @@ def _poisson_cases(c):
 def oracle(ctx: Ctx, deep: bool = False):
     store = _RUN
     if deep or "cases" not in store:
+        # the failing-input search after a broken obligation is BOUNDED: a fresh, larger sample of generator calls (thorough
+        # case counts) but the quick-tier enumeration / statistics / histories / forms — about twice a quick run, never more
         store = {}
-        old = ctx.tier
-        if deep:
-            ctx.tier = "thorough"
-        try:
-            _run_cases(ctx, store)
-        finally:
-            ctx.tier = old
+        _run_cases(ctx, store, more_cases=deep)
     for hg in store["hangs"]:
         yield Violation("call-does-not-return", f"generator call did not return within {hg['budget']} s", {"op": "case", **hg["case"]})
     for cr in store.get("crashes", []):
